@@ -33,8 +33,8 @@ ASSUMPTIONS = [
 ]
 
 BASE = ['a', 'p', 'div', 'span', 'x', 'svg', 'item']
-NONASCII = ['xé', 'xÉ', 'xǆ', 'xǅ', 'xK', 'xk']        # é/É, dž digraphs, KELVIN SIGN vs k
-ATTRN = ['title', 'data-x', 'type', 'data-é', 'data-É', 'dataK', 'lang', 'viewBox', 'preserveAspectRatio', 'kind']
+NONASCII = ['xé', 'xÉ', 'xǆ', 'xǅ', 'xK', 'xk', 'zé', 'azé']        # é/É, dž digraphs, KELVIN SIGN vs k
+ATTRN = ['title', 'data-x', 'type', 'data-é', 'data-É', 'dataK', 'lang', 'viewBox', 'preserveAspectRatio', 'kind', 'data-zé']
 TYPEV = ['text', 'TEXT', 'Text', 'radio', 'x']
 VALS = ['x', 'X', 'xY', 'xy', 'XY', 'é', 'x y', '']
 HTML_ONLY = [':any-link', ':link', ':checked', ':default', ':disabled', ':enabled', ':indeterminate', ':optional', ':required',
